@@ -621,3 +621,41 @@ func longEnough(c *Ctx, fn *ssa.Function, at *ssa.Call, sl ssa.Value, need int64
 	}
 	return false, "no construction length and no dominating length test found"
 }
+
+// c17ResponseFields: inside handshakeResponse each parameter lands in its own field: status (u32),
+// the client's major and minor version bytes in that order, server version 0 (u16), the capability
+// word (u16). C17/echo ties the call's arguments to the request; this ties the fields to the
+// parameters, whatever the assembly style.
+func c17ResponseFields(c *Ctx) {
+	rule := "C17/response-fields"
+	fn := c.Fn("cmd/rdpgw/protocol", "Processor.handshakeResponse")
+	key := shortFn(fn)
+	if len(fn.Params) != 5 {
+		c.Undecided(rule, key+" signature", fn.Pos(), "handshakeResponse no longer takes (major, minor, caps, status)")
+		return
+	}
+	major, minor, caps := fn.Params[1], fn.Params[2], fn.Params[3]
+	writes, _, ok, why := bufferWrites(fn)
+	if !ok {
+		c.Undecided(rule, key+" writes", fn.Pos(), "%s", why)
+		return
+	}
+	if len(writes) != 4 {
+		c.Bad(rule, key+" fields", fn.Pos(), "the handshake response has %d fields, MS-TSGU has status, version bytes, server version, capabilities", len(writes))
+		return
+	}
+	fromParam := func(v ssa.Value, p *ssa.Parameter) bool {
+		for _, o := range origins(v) {
+			if o.Kind == "param" && o.Value == ssa.Value(p) {
+				return true
+			}
+		}
+		return false
+	}
+	ver := writes[1]
+	verOK := ver.width == 2 && len(ver.elems) == 2 && fromParam(ver.elems[0], major) && fromParam(ver.elems[1], minor) && !fromParam(ver.elems[0], minor) && !fromParam(ver.elems[1], major)
+	c.Check(verOK, rule, key+" version-bytes", ver.call.Pos(), "second field = the major then the minor version byte of the request", "the version bytes of the handshake response are not the request's major byte followed by its minor byte")
+	sv, isC := constInt(writes[2].val)
+	c.Check(writes[2].width == 2 && isC && sv == 0, rule, key+" server-version", writes[2].call.Pos(), "server version field = 0", "the server version field of the handshake response is not the constant 0")
+	c.Check(writes[3].width == 2 && fromParam(writes[3].val, caps) && len(origins(writes[3].val)) == 1, rule, key+" capabilities", writes[3].call.Pos(), "last field = the capability word handed in", "the capability field of the handshake response is not the capability parameter")
+}
